@@ -2,12 +2,34 @@
 from ..rules import gen, gen2
 
 ID = 'C22'
-TECHNIQUE = 'path-sensitive dataflow over the try/except/finally/with code generators: label-slot save/restore, label placement, interceptor alignment, temp release'
+TECHNIQUE = ('path-sensitive dataflow over the try/except/finally/with code generators: label-slot save/restore, label placement, interceptor alignment, temp release; '
+             'decision table of __Pyx_Raise over the complete partition of the cause operand (three-valued path exploration of the parsed C body, all #if arms)')
 DECIDES = ('G3: every generator that redirects the error/return/break/continue label slots restores them from the saved values on every normal exit; '
            'G4: every label created is placed (put_label / label_interceptor) when it is jumped to; G4b: label_interceptor pairs new and original labels of the same kind; '
            'G2: the exception save variables and other temps are released on every normal path; G1 for the evaluated sub-expressions; '
-           'C22-ELSE: the else clause of try/except is generated outside the region whose error label is the handler dispatch.')
-NOT_DECIDED = '__context__/__cause__ chaining inside Exceptions.c and the run-time order of blocks.'
+           'C22-ELSE: the else clause of try/except is generated outside the region whose error label is the handler dispatch; '
+           'C22-CAUSE: for each element of {no from-clause, None, exception class, exception instance, other object} of the 4th argument, every path of __Pyx_Raise that '
+           'raises the requested exception has made exactly the PyException_SetCause call of ceval.c:do_raise (none / (value, NULL) / (value, new instance) / (value, cause)), '
+           'any other object never raises it, and RaiseStatNode passes NULL exactly when the statement has no from-clause.')
+NOT_DECIDED = ('implicit __context__ chaining (done by PyErr_SetObject / the exc_info save-restore helpers of Exceptions.c), reference counting of the cause, '
+               'and the run-time order of blocks.')
+
+# Single edits tried on a scratch copy for C22-CAUSE (rules/sC22.py): (file, edit, outcome)
+MUTATIONS = [
+    ('Cython/Utility/Exceptions.c', 'seed C22b: `if (cause && cause != Py_None)` and the None branch removed', 'C22-CAUSE cause=None'),
+    ('Cython/Utility/Exceptions.c', 'TypeError branch for non-exception causes removed (else: attach the object)', 'C22-CAUSE cause=other'),
+    ('Cython/Utility/Exceptions.c', 'PyException_SetCause moved into the exception-instance branch only', 'C22-CAUSE cause=None, cause=class'),
+    ('Cython/Utility/Exceptions.c', '`from None` attaches None itself (fixed_cause = cause)', 'C22-CAUSE cause=None'),
+    ('Cython/Utility/Exceptions.c', '`if (cause)` guard dropped, `cause == Py_None || !cause` -> SetCause(value, NULL) also without from', 'C22-CAUSE cause=absent'),
+    ('Cython/Utility/Exceptions.c', 'class cause attached without instantiating it', 'C22-CAUSE cause=class'),
+    ('Cython/Compiler/Nodes.py', 'RaiseStatNode: tb_code / cause_code swapped in the __Pyx_Raise operand tuple', 'C22-CAUSE arg4'),
+    ('Cython/Compiler/Nodes.py', 'RaiseStatNode: cause_code = "Py_None" when there is no from-clause', 'C22-CAUSE arg4:no-from'),
+    # behaviour-preserving: all silent
+    ('Cython/Utility/Exceptions.c', 'fixed_cause renamed, `cause != NULL`, `Py_None == cause`', 'silent'),
+    ('Cython/Utility/Exceptions.c', 'None case split off into its own `if (cause == Py_None) SetCause(value, NULL); else if (!(cause == NULL)) {...}`, instance test before class test, nested ifs, `!fixed_cause`', 'silent'),
+    ('Cython/Compiler/Nodes.py', 'RaiseStatNode: f-string emission, `from_code = self.cause.py_result() if self.cause else "NULL"`, `if self.cause is not None`', 'silent'),
+    ('Cython/Compiler/Nodes.py', 'RaiseStatNode: `if not self.cause: cause_code = "0" else: ...` (branches swapped)', 'silent'),
+]
 
 
 def run(ctx):
